@@ -907,6 +907,50 @@ def _r7_validator(ctx):
     if not n_checked or not seen_two:
         raise AnalysisError("anchor vanished: validator.main has no path "
                             "that loads two configuration files")
+    # every load of a configuration file is under a handler for the whole
+    # configuration-error family (a narrower handler lets the other members
+    # end the command with a traceback instead of status 1)
+    from zcstatic import absint as A_
+    todo, seen_f = [fn], set()
+    n_loads = 0
+    while todo:
+        f = todo.pop()
+        if f.qualname in seen_f:
+            continue
+        seen_f.add(f.qualname)
+        for call, callees in P.calls_in(f):
+            for c in callees:
+                if c.kind == "repo" and A_.is_unknown_helper(c.fn):
+                    todo.append(c.fn)
+            if not (dotted(call.func) or "").endswith(
+                    ("loadConfigFile", "loadConfig")):
+                continue
+            n_loads += 1
+            covered = False
+            p_ = call
+            while p_ is not None and p_ is not f.node:
+                par = getattr(p_, "_parent", None)
+                if isinstance(par, ast.Try) and p_ in par.body:
+                    for h in par.handlers:
+                        types = [None] if h.type is None else (
+                            h.type.elts if isinstance(h.type, ast.Tuple)
+                            else [h.type])
+                        for t in types:
+                            q = "builtins.BaseException" if t is None else \
+                                m.resolve(f.module, t)
+                            if q and (q == CFGERR or m.is_subclass(CFGERR, q)):
+                                covered = True
+                p_ = par
+            run.check(covered, "C07.R7", f.qualname, src(call),
+                      "the load is under a handler for ZConfig."
+                      "ConfigurationError (or a base of it)",
+                      "the load %s is not under a handler for the whole "
+                      "ConfigurationError family: the other members end the "
+                      "command with a traceback, not with status 1"
+                      % src(call), loc=m.loc(f, call))
+    if not n_loads:
+        raise AnalysisError("anchor vanished: validator.main loads no "
+                            "configuration file")
     if not n_fail:
         run.ok("C07.R7", fn.qualname, "exit status",
                "on all %d returning paths that load files (up to two files), "
